@@ -1416,6 +1416,31 @@ func ruleC09b(c *Ctx) {
 				}
 			}
 		})
+		// every requested header is looked at: the loop that checks them is left early only to refuse. A `break` for
+		// an empty element (or any other reason that is not a failed check) leaves the names behind it unchecked.
+		if headerCheck != nil {
+			if h, loop := innermostLoop(headerCheck.Block()); h != nil {
+				early := ""
+				for b := range loop {
+					if b == h {
+						continue // exhaustion
+					}
+					for _, sc := range b.Succs {
+						if loop[sc] {
+							continue
+						}
+						r := reachableBlocks([]*ssa.BasicBlock{sc}, nil)
+						for _, g := range grants {
+							if r[g.Block()] || sc == g.Block() {
+								early = p.ipos(b.Instrs[len(b.Instrs)-1])
+							}
+						}
+					}
+				}
+				c.check(early == "", name, "the header loop is left early only to refuse", p.ipos(headerCheck), "every way out of the loop other than its exhaustion cannot reach a grant",
+					"the loop over the requested headers is left at "+early+" before all names were checked, and a grant is still reachable from there: the names behind that point are granted unchecked")
+			}
+		}
 		// the header loop may live in a helper given the whole header value
 		var headerHelper *ssa.Call
 		var acrhVal ssa.Value
